@@ -54,6 +54,23 @@ namespace tfel::math {
 #include "FSES/syevj3.hxx"
 #include "FSES/sytrd3.hxx"
 
+// The default solver's eigenvalue routine (CubicRoots, property C10) is not traced here: on the recording
+// scalar it returns uninterpreted symbols (it is only reachable from the degenerate fallback branch of
+// computeEigenVector, which the traced paths do not take).
+namespace tfel::math::internals {
+  template <>
+  inline void StensorComputeEigenValues<3u>::exe<verif::Sym>(const verif::Sym* const v,
+                                                             verif::Sym& vp1,
+                                                             verif::Sym& vp2,
+                                                             verif::Sym& vp3,
+                                                             const bool) {
+    const std::vector<verif::Sym> a(v, v + 6);
+    vp1 = verif::make_call("vp0", a, 1.);
+    vp2 = verif::make_call("vp1", a, 2.);
+    vp3 = verif::make_call("vp2", a, 3.);
+  }
+}  // namespace tfel::math::internals
+
 using namespace tfel::math;
 using verif::Sym;
 using verif::Unit;
@@ -80,6 +97,33 @@ int main() {
     tvector<3u, Sym> w;
     fses::syevc3(w, A);
     verif::outputs("w", w, 3);
+    // the intermediate quantities of syevc3, recomputed here with the same formulas: common subexpression
+    // elimination makes them the *same DAG nodes* as inside the function, so that the theorems can name them
+    // (m = trace, c1, c0 = coefficients of the characteristic polynomial, p, q, phi, sqrt_p, cos, sin)
+    using fses::square;
+    const Sym two(2), three(3), c3_2 = three / Sym(2), c27(27), c27_2 = Sym(27) / Sym(2),
+              c27_4 = Sym(27) / Sym(4), c1_4 = Sym(1) / Sym(4), one_third = Sym(1) / Sym(3);
+    const Sym de = A(0, 1) * A(1, 2);
+    const Sym dd = square(A(0, 1));
+    const Sym ee = square(A(1, 2));
+    const Sym ff = square(A(0, 2));
+    const Sym m = A(0, 0) + A(1, 1) + A(2, 2);
+    const Sym c1 = (A(0, 0) * A(1, 1) + A(0, 0) * A(2, 2) + A(1, 1) * A(2, 2)) - (dd + ee + ff);
+    const Sym c0 = (A(2, 2) * dd + A(0, 0) * ee + A(1, 1) * ff - A(0, 0) * A(1, 1) * A(2, 2) -
+                    two * A(0, 2) * de);
+    const Sym p = square(m) - three * c1;
+    const Sym q = m * (p - c3_2 * c1) - c27_2 * c0;
+    const Sym sqrt_p = std::sqrt(std::abs(p));
+    Sym phi = c27 * (c1_4 * square(c1) * (p - c1) + c0 * (q + c27_4 * c0));
+    phi = (one_third)*std::atan2(std::sqrt(std::abs(phi)), q);
+    verif::output("m", m);
+    verif::output("c1", c1);
+    verif::output("c0", c0);
+    verif::output("p", p);
+    verif::output("q", q);
+    verif::output("sqrtp", sqrt_p);
+    verif::output("cosphi", std::cos(phi));
+    verif::output("sinphi", std::sin(phi));
   }
   verif::ctx().concolic = true;
   {
@@ -100,6 +144,14 @@ int main() {
       const bool ok = s.computeEigenVector(ev, vp);
       verif::output("ok", Sym(ok ? 1 : 0));
       verif::outputs("v", ev, 3);
+      {
+        // the 2x2 minor used as divisor and the norm, recomputed with the formulas of the code
+        constexpr auto icste = Cste<Sym>::isqrt2;
+        const Sym a = s[0] - vp, b = s[3] * icste, c = s[4] * icste, d = s[1] - vp, e = s[5] * icste,
+                  f = s[2] - vp;
+        const Sym det3 = a * d - b * b, det2 = a * f - c * c, det1 = d * f - e * e;
+        verif::output("minor", k == 0 ? det3 : (k == 1 ? det1 : det2));
+      }
     }
   }
   {
@@ -115,6 +167,7 @@ int main() {
       Unit u(j.name);
       tmatrix<3u, 3u, Sym> A, Q;
       sym_matrix(A, j.sh);
+      const tmatrix<3u, 3u, Sym> A0 = A;
       tvector<3u, Sym> w;
       const int r = fses::syevj3(Q, w, A);
       verif::output("ret", Sym(r));
@@ -123,6 +176,24 @@ int main() {
       verif::output("b01", A(0, 1));
       verif::output("b02", A(0, 2));
       verif::output("b12", A(1, 2));
+      // the rotation parameters, recomputed with the formulas of syevj3 (same DAG nodes by CSE)
+      const std::string nm = j.name;
+      const int p = nm[7] - '0', q = nm[8] - '0';
+      const bool neg = nm.substr(10) == "neg";
+      const Sym one(1), one_half = Sym(1) / Sym(2);
+      const Sym h = A0(q, q) - A0(p, p);
+      const Sym theta = one_half * h / A0(p, q);
+      const Sym r1 = std::sqrt(one + fses::square(theta));
+      const Sym t = neg ? -one / (r1 - theta) : one / (r1 + theta);
+      const Sym r2 = std::sqrt(one + fses::square(t));
+      const Sym cc = one / r2;
+      const Sym ss = t * cc;
+      verif::output("th", theta);
+      verif::output("r1", r1);
+      verif::output("t", t);
+      verif::output("r2", r2);
+      verif::output("cc", cc);
+      verif::output("ss", ss);
     }
   }
   {
@@ -144,6 +215,15 @@ int main() {
       verif::outputs("d", d, 3);
       verif::output("e0", e[0]);
       verif::output("e1", e[1]);
+      // Householder parameters recomputed with the formulas of sytrd3 (same DAG nodes by CSE)
+      const Sym hh = fses::square(A(0, 1)) + fses::square(A(0, 2));
+      verif::output("h", hh);
+      if (std::string(h.name) != "sytrd3_diag") {
+        const Sym g = (std::string(h.name) == "sytrd3_pos") ? -std::sqrt(hh) : std::sqrt(hh);
+        const Sym f = g * A(0, 1);
+        verif::output("g", g);
+        verif::output("omega", Sym(1) / (hh - f));
+      }
     }
   }
   verif::ctx().concolic = false;
